@@ -176,8 +176,8 @@ def run(ctx):
     stats = dict(events=0, segments=0, commands=0, tuple_dumps_compared=0, by_op={}, mismatches=0, runs=[],
                  codec_lines=0, codec_cases=0, codec_pairs=0, codec_ranges=0, codec_distinct=0)
     samples = []
-    seg, ln = ("30", "70") if q else ("200", "80")
-    segs = "15" if q else "100"
+    seg, ln = ("24", "70") if q else ("200", "80")
+    segs = "12" if q else "100"
     # (B i) general corpora (the trigger of the recorded open finding is kept out)
     iso_stage(ctx, zr, "pebble-local", "pebble", "local", ["-segments", seg, "-len", ln, "-bulk", "60"], stats, samples)
     iso_stage(ctx, zr, "pebble-compact", "pebble", "compact", ["-segments", seg, "-len", ln, "-long", "8000"], stats, samples)
